@@ -8,9 +8,51 @@
 #ifndef ENDIAN
 #define ENDIAN 0
 #endif
+#ifndef NORMBITS
+#define NORMBITS 32
+#endif
 #define STR2(x) #x
 #define STR(x) STR2(x)
 static char src[400], src2[400];
+// "same instruction after numeric normalisation": texts are compared character by character, except that
+// a run of digits (decimal, or hex after 0x) is compared by value (so #0 and #0x0000 are the same operand)
+static int hexval(unsigned char c) { return (c & 0xf) + ((c >> 6) * 9); }
+static int is_dec(unsigned char c) { return c >= '0' && c <= '9'; }
+static int is_hex(unsigned char c) { return (c >= '0' && c <= '9') || (c >= 'a' && c <= 'f') || (c >= 'A' && c <= 'F'); }
+static uint64_t parse_num(const char *t, int *i)
+{
+  uint64_t v = 0;
+  if (t[*i] == '0' && (t[*i + 1] == 'x' || t[*i + 1] == 'X') && is_hex((unsigned char)t[*i + 2]))
+  {
+    *i += 2;
+    while (is_hex((unsigned char)t[*i])) { v = v * 16 + (uint64_t)hexval((unsigned char)t[*i]); (*i)++; }
+    return v;
+  }
+  while (is_dec((unsigned char)t[*i])) { v = v * 10 + (uint64_t)(t[*i] - '0'); (*i)++; }
+  return v;
+}
+static int same_instruction(const char *a, const char *b)
+{
+  int i = 0, j = 0; int ok = 1;
+  while (a[i] != 0 && b[j] != 0)
+  {
+    int pa = i > 0 && (is_hex((unsigned char)a[i - 1]) || (a[i - 1] >= 'g' && a[i - 1] <= 'z') || (a[i - 1] >= 'G' && a[i - 1] <= 'Z') || a[i - 1] == '_');
+    int na = a[i] == '-' && is_dec((unsigned char)a[i + 1]), nb = b[j] == '-' && is_dec((unsigned char)b[j + 1]);
+    if ((is_dec((unsigned char)a[i]) || na) && (is_dec((unsigned char)b[j]) || nb) && !pa)
+    {
+      // values are compared modulo 2^NORMBITS (the CPU's operand width): -1 and 0xffff spell the same 16-bit operand
+      if (na) i++; if (nb) j++;
+      uint64_t va = parse_num(a, &i), vb = parse_num(b, &j);
+      if (na) va = 0 - va; if (nb) vb = 0 - vb;
+      ok &= (((va - vb) & ((NORMBITS >= 64) ? ~0ULL : ((1ULL << NORMBITS) - 1))) == 0);
+      continue;
+    }
+    ok &= (a[i] == b[j]);
+    i++; j++;
+  }
+  ok &= (a[i] == 0 && b[j] == 0);
+  return ok;
+}
 static void make_source(char *out, const char *text)
 {
   char *p = out;
@@ -45,7 +87,7 @@ extern "C" void harness_main()
   c1->memory.endian = ENDIAN;
   int d2 = DISASM_FN(&c1->memory, BASE, text2, sizeof(text2), FLAGS, &cmin, &cmax);
   symx_note_str("T2", text2);
-  symx_assert(strcmp(text, text2) == 0, "C07: re-assembled bytes disassemble to the same instruction text");
+  symx_assert(same_instruction(text, text2), "C07: re-assembled bytes disassemble to the same instruction (numbers compared by value)");
   // C01: walking the disassembler over the emitted bytes consumes exactly the bytes emitted
   symx_assert(d2 == n2, "C01: disassembler consumes exactly the bytes the assembler emitted");
   // C01: encode -> decode -> encode is a fixpoint (c1's bytes are assembler output)
